@@ -147,6 +147,62 @@ def run_scalar(ctl, case):
 ctl_lazy_loaded = [False]
 
 
+def run_ref(ctl, case):
+    """to-one reference changing under the reader: attribute 0 = I[1].owner (value = primary key of the referenced G, or None)"""
+    G, I = ctl.E['G'], ctl.E['I']; raw = ctl.raw
+    for t in ('G_T', 'I', 'IU', 'IP', 'T', 'G'): raw.execute('DELETE FROM "%s"' % t)
+    raw.execute("INSERT INTO G (id, name) VALUES (1, 'g1'), (2, 'g2')")
+    raw.execute('INSERT INTO I (id, owner) VALUES (1, ?)', (case['db0'],))
+    raw.commit()
+    sess = S.Session(ctl.reader, orm); sess.begin()
+    model, real, failed, other, loaded = [], [], False, [], False
+    for op in case['ops']:
+        if op[0] == 'X':
+            ctl.write(lambda: setattr(I[1], 'owner', None if op[1] is None else G[op[1]])); continue
+        if failed: continue
+        cur = raw.execute('SELECT owner FROM I WHERE id = 1').fetchone()[0]
+        if not loaded:
+            model.append(['Load', 0, cur]); loaded = True
+        if op[0] == 'R':
+            model.append(['Read', 0, cur])
+            r = sess.do(lambda: (lambda o: None if o is None else o.id)(I[1].owner))
+            if r[0] == 'ok': real.append(['obs', 0, r[1]])
+        elif op[0] == 'F':
+            model.append(['Load', 0, cur])
+            k = ctl.fresh()
+            r = sess.do(lambda: [x.id for x in I.select(lambda x: x.id > k)[:]])
+        else:
+            raise ValueError(op)
+        if r[0] == 'exc':
+            failed = True
+            if type(r[1]).__name__ != 'UnrepeatableReadError': other.append('%s: %s' % (type(r[1]).__name__, str(r[1])[:300]))
+    sess.abort()
+    return {'failed': failed, 'events': real, 'model': model, 'other': other, 'lock_left_held': ctl.db.provider.transaction_lock.locked()}
+
+
+def run_proj(ctl, case):
+    """what the code does for values observed through scalar projections (select(p.a for p in P)): a projection creates no object
+    state and no read bit, and is itself never compared with values the session holds.  Pinned behaviour, outside the statement."""
+    P = ctl.E['P']; raw = ctl.raw
+    out = []
+    def scenario(name, first, second):
+        raw.execute('DELETE FROM P'); raw.execute('INSERT INTO P (id, a, b, v, z) VALUES (1, 1, 2, 3, 4)'); raw.commit()
+        sess = S.Session(ctl.reader, orm); sess.begin()
+        r1 = sess.do(first)
+        ctl.write(lambda: setattr(P[1], 'a', 9))
+        r2 = sess.do(second) if sess.alive else ('exc', None)
+        if sess.alive: sess.abort()
+        out.append({'name': name, 'first': r1[1] if r1[0] == 'ok' else type(r1[1]).__name__, 'second': r2[1] if r2[0] == 'ok' else type(r2[1]).__name__})
+    proj = lambda: orm.select(p.a for p in P)[:][0]
+    k1, k2 = ctl.fresh(), ctl.fresh()
+    proj2 = lambda: orm.select(p.a for p in P if p.id > k2)[:][0]
+    scenario('projection, then attribute of the (not yet loaded) object', proj, lambda: P[1].a)
+    scenario('attribute of the object, then projection', lambda: P[1].a, proj)
+    scenario('projection, then another projection', proj, proj2)
+    scenario('attribute, then re-fetch of the object by a query', lambda: P[1].a, lambda: [p.a for p in P.select(lambda p: p.id > k1)[:]])
+    return {'table': out}
+
+
 def run_coll(ctl, case):
     G, T = ctl.E['G'], ctl.E['T']; raw = ctl.raw
     m2m = case['m2m']
@@ -250,7 +306,7 @@ def main():
         t0 = time.time()
         for k, case in enumerate(payload['cases']):
             try:
-                out['results'].append(run_scalar(ctl, case) if case['kind'] == 'scalar' else run_coll(ctl, case))
+                out['results'].append({'scalar': run_scalar, 'ref': run_ref, 'proj': run_proj, 'coll': run_coll}[case['kind']](ctl, case))
             except S.Stuck as e:
                 out['stuck'] = {'case': k, 'what': str(e)}
                 break
